@@ -178,9 +178,12 @@ func (ex *Exec) zero(t types.Type) Value {
 		if u.Kind() == types.UntypedNil {
 			return &Pointer{}
 		}
+		if u.Kind() == types.Invalid {
+			return nil // unused component of a range tuple
+		}
 		w, _, ok := intWidth(t)
 		if !ok {
-			panic(unsupported("zero of basic type " + t.String()))
+			panic(unsupported("zero of basic type " + t.String() + ex.where() + fmt.Sprintf(" pos=%v", ex.ld.Fset.Position(ex.curPos))))
 		}
 		if w == 0 {
 			return ex.tb.False
